@@ -10,6 +10,9 @@ for d in sorted(glob.glob(os.path.join(VERIF, "seeded", "harmless", "*"))):
     patch = os.path.join(d, "patch.diff")
     if not os.path.exists(patch):
         continue
+    only = os.environ.get("REFACTOR_ONLY")          # e.g. "R3,R4": a subset (to spread the re-check over parallel runs)
+    if only and os.path.basename(d) not in only.split(","):
+        continue
     if subprocess.run(f"git -C {REPO} apply {patch}", shell=True).returncode != 0:
         print(os.path.basename(d), "patch does not apply"); alarms.append((os.path.basename(d), "apply")); continue
     try:
